@@ -289,7 +289,15 @@ func runServer(t *testing.T, sc *srvSc) (res verifsim.Result) {
 			provOf[k] = map[peer.ID]bool{}
 			for j := 0; j < sc.NProv; j++ {
 				id := peer.ID(pp.IDs[6000+j])
+				// address sets known for the provider: public + loopback, loopback only (every address rejected by the "nolo"
+				// filter: the provider is still a stored provider and has to be served, without addresses), none at all
 				addrs := []ma.Multiaddr{ma.StringCast("/ip4/8.3.0.1/tcp/1"), ma.StringCast("/ip4/127.0.0.1/tcp/1")}
+				switch j % 3 {
+				case 1:
+					addrs = []ma.Multiaddr{ma.StringCast("/ip4/127.0.0.1/tcp/1"), ma.StringCast(fmt.Sprintf("/ip4/127.0.1.%d/tcp/2", 1+j%200))}
+				case 2:
+					addrs = nil
+				}
 				if sc.BigProv {
 					addrs = bigAddrList()
 				}
